@@ -3,7 +3,7 @@
    The model (Model/Lifecycle.v) follows the repository AFTER three repairs made for this property
    (F11 callSinksAsync lock, F18a EmitSync not in the barrier, F18b consumer dies on a panicking batch);
    each repair is a flag of the configuration, the as-found behaviour is the flag set to false. *)
-From SV Require Import Model.Lifecycle Spec.LifecycleSpec Proofs.LifecycleProofs.
+From SV Require Import Model.Lifecycle Spec.LifecycleSpec Proofs.LifecycleProofs Proofs.LifecycleDrain.
 From Coq Require Import List.
 Import ListNotations.
 
@@ -132,6 +132,54 @@ Example C18_inflight_emitsync_joined :
     [ESyncBegin 0; EStopBegin 2; ESinkBegin 0 false; ESinkEnd 0; ESyncEnd 0 true; EStopReturn 2 true] /\
   chk_state inflight_run = None.
 Proof. exact inflight_joined. Qed.
+
+(* Stop need not wait for its grace when nothing is in flight (seeded round 3, "Stop right after Execute"): in EVERY
+   reachable state of every configuration that provides a window-output consumer per processor, if a Stop caller waits at
+   the join and no user code is in progress on a goroutine tracked by the lifecycle counter (quiet_th: tracked goroutines
+   and consumers not started yet have no pending sink / registration code), the schedule can be continued so that the
+   Stop caller passes the join through the drained branch: counter 0, no tracked goroutine left. The continuation moves
+   only tracked goroutines (each runs alone to its exit once `done` is closed and the channel pointer is nil), consumers
+   that take a pending token, and finally the Stop caller -- whatever the pipeline goroutines had done before, in
+   particular if none of them was ever scheduled. Existence of a continuation (EF), not fairness of the Go scheduler. *)
+Theorem C18_join_reachable : forall c cap0 async sync roles sched0 tid a, roles_ok c roles ->
+  nth_error (ths (lrun c sched0 (linit cap0 async sync roles))) tid = Some (lmk StJoin [] a) ->
+  Forall quiet_th (ths (lrun c sched0 (linit cap0 async sync roles))) ->
+  exists sched,
+    nth_error (ths (lrun c (sched0 ++ sched) (linit cap0 async sync roles))) tid = Some (lmk StFlush [] a) /\
+    joined (sh (lrun c (sched0 ++ sched) (linit cap0 async sync roles))) = true /\
+    life (sh (lrun c (sched0 ++ sched) (linit cap0 async sync roles))) = 0 /\
+    cnt lweight (ths (lrun c (sched0 ++ sched) (linit cap0 async sync roles))) = 0.
+Proof. exact join_reachable. Qed.
+Print Assumptions C18_join_reachable.
+
+(* the same from any state (reachable or not) that satisfies the fence (done closed, pointer nil), the counter equation
+   and the token bound *)
+Theorem C18_join_reachable_from : forall c st tid a, DI st -> TB st ->
+  nth_error (ths st) tid = Some (lmk StJoin [] a) ->
+  exists sched, nth_error (ths (lrun c sched st)) tid = Some (lmk StFlush [] a) /\
+                joined (sh (lrun c sched st)) = true /\ life (sh (lrun c sched st)) = 0 /\
+                cnt lweight (ths (lrun c sched st)) = 0.
+Proof. exact join_reachable_from. Qed.
+Print Assumptions C18_join_reachable_from.
+
+(* Start registers the window-output consumer ahead of time; the processor goroutine hands that registration over (spawns
+   the consumer) whatever the stopped flag says -- a processor that returned early because Stop won the race would keep the
+   counter above 0 for ever *)
+Theorem C18_consumer_always_spawned : forall c tid ch a s,
+  lpstep c tid ch PrInitW a s = Some (PrLoop, [], upd_life s (life s) (tokens s + 1), []).
+Proof. exact consumer_always_spawned. Qed.
+Print Assumptions C18_consumer_always_spawned.
+
+(* non-vacuity / witness (family I): a windowed instance, Execute returned, no pipeline goroutine scheduled yet, Stop at
+   its join: the join is not enabled there (4 registrations), the hypotheses of C18_join_reachable hold, and the explicit
+   continuation processor, consumer, workers, Stop returns through the join with nothing left; accepted by the monitor *)
+Example C18_idle_stop_first :
+  nth_error (ths idle_stop_first) 4 = Some (lmk StJoin [] 0) /\ nth_error (ths idle_stop_first) 0 = Some (lmk PrInitW [] 0) /\
+  life (sh idle_stop_first) = 4 /\ lstep (cfg_of true true true true false) 4 0 idle_stop_first = None /\
+  roles_ok (cfg_of true true true true false) idle_roles /\ Forall quiet_th (ths idle_stop_first) /\
+  rev (ltrace idle_joined) = [EStopBegin 4; EStopReturn 4 true] /\ life (sh idle_joined) = 0 /\
+  cnt lweight (ths idle_joined) = 0 /\ chk_state idle_joined = None.
+Proof. exact idle_stop_first_ok. Qed.
 
 (* non-vacuity: a run with two workers, a processor, a producer, an EmitSync and a Stop in which sinks are invoked,
    the Stop returns through the join, and the barrier is established *)
